@@ -81,7 +81,9 @@ def gen_history(r, names):
                 pos = t
         elif k < .55:
             L = r.choice([0, 1, 2, 5, 300])
-            t = "".join(chr(r.randrange(256)) for _ in range(L))
+            t = "".join(chr(r.choice([r.randrange(256), 13, 10])) for _ in range(L))
+            if r.random() < .15:
+                t = r.choice(["a\r\nb", "\r\n", "x\r\r\ny", "line1\r\nline2\r\n", "\n\r"])
             if bad: t += "Ā"
             ops.append(("paste", t))
         elif k < .65:
